@@ -223,6 +223,8 @@ pub struct TxRec {
     pub gen_roundtrip_mismatch: Option<String>,
     pub artefact: bool,
     pub count_off: usize,
+    /// carries Sprout JoinSplit descriptions (spliced in at the byte level)
+    pub has_joinsplits: bool,
 }
 
 /// Every field of a transaction, read through the public getters (independent of the writer under
@@ -383,9 +385,56 @@ fn gen_tx_rec(bi: usize, i: u64) -> Result<TxRec, String> {
         TxVersion::V3 | TxVersion::V4 => 8,
         _ => 20,
     };
+    // The repository's generator never emits Sprout JoinSplits. For a third of the v2-v4 transactions whose
+    // encoding ends in the (zero) JoinSplit count, one or two JoinSplit descriptions with arbitrary contents, the
+    // JoinSplit public key and signature are spliced in at the byte level (PHGR proofs before Sapling, Groth after).
+    let (tx1, b1, mismatch) = {
+        let mut out = (tx1, b1, mismatch);
+        let tx = &out.0;
+        let ends_in_js_count = tx.version().has_sprout() && tx.sprout_bundle().is_none() && (!tx.version().has_sapling() || tx.sapling_bundle().is_none()) && out.1.last() == Some(&0);
+        if ends_in_js_count && i % 3 == 0 && out.2.is_none() {
+            let groth = tx.version().has_sapling();
+            let n = 1 + (r.next() % 2) as usize;
+            let mut b = out.1.clone();
+            b.pop();
+            b.push(n as u8);
+            for _ in 0..n {
+                // one of vpub_old / vpub_new is zero on a real chain; the codec only range-checks them
+                let (vo, vn) = match r.next() % 3 {
+                    0 => (r.next() % 2_100_000_000_000_000, 0),
+                    1 => (0, r.next() % 2_100_000_000_000_000),
+                    _ => (0, 0),
+                };
+                b.extend_from_slice(&vo.to_le_bytes());
+                b.extend_from_slice(&vn.to_le_bytes());
+                let mut body = vec![0u8; 32 + 64 + 64 + 32 + 32 + 64 + if groth { 192 } else { 296 } + 2 * 601];
+                r.fill(&mut body);
+                b.extend_from_slice(&body);
+            }
+            let mut tail = [0u8; 96];
+            r.fill(&mut tail);
+            b.extend_from_slice(&tail);
+            match Transaction::read(&b[..], branch) {
+                Err(e) => out.2 = Some(format!("{:?} transaction (branch {branch:?}, pool entry {i}) with {n} spliced JoinSplit description(s) does not parse: {e}", tx.version())),
+                Ok(tx2) => {
+                    let mut b2 = vec![];
+                    tx2.write(&mut b2).map_err(|e| format!("tx with JoinSplits does not serialise: {e}"))?;
+                    if b2 != b {
+                        out.2 = Some(format!("{:?} transaction (branch {branch:?}, pool entry {i}) with {n} JoinSplit description(s): re-serialisation differs from the bytes parsed ({} vs {} bytes)", tx2.version(), b2.len(), b.len()));
+                    } else if tx2.sprout_bundle().map(|x| x.joinsplits.len()) != Some(n) {
+                        out.2 = Some(format!("{n} JoinSplit descriptions were encoded, the parsed transaction has {:?}", tx2.sprout_bundle().map(|x| x.joinsplits.len())));
+                    }
+                    out.0 = tx2;
+                    out.1 = b2;
+                }
+            }
+        }
+        out
+    };
     Ok(TxRec {
         ident: tx_ident(&tx1),
         version_lt5: !matches!(tx1.version(), TxVersion::V5 | TxVersion::V6),
+        has_joinsplits: tx1.sprout_bundle().is_some(),
         bytes: b1,
         gen_roundtrip_mismatch: mismatch,
         artefact,
@@ -668,6 +717,9 @@ fn build_record(ch: &mut Choices, ctx: &mut RunCtx) -> Result<Option<Rec>, Viola
                     }
                     if t.artefact {
                         ctx.probe("generator_anchor_artefact_normalised");
+                    }
+                    if t.has_joinsplits {
+                        ctx.probe("transaction_with_sprout_joinsplits");
                     }
                     let sha_id = if t.version_lt5 { Some(sha256d(&t.bytes)) } else { None };
                     Ok(Some(Rec { kind: Kind::Tx(bi), bytes: t.bytes.clone(), ident: t.ident.clone(), sha_id, count_off: t.count_off, label: format!("tx[{:?}#{i},{}B]", BRANCHES[bi], t.bytes.len()) }))
@@ -1109,7 +1161,7 @@ impl Scenario for Stream {
     fn components(&self) -> serde_json::Value {
         json!({"Transaction::read/write, BlockHeader::read/write, Block::read/write, HashReader, transparent/sapling/orchard/ironwood bundle codecs": "real",
                "byte stream (peer / disk)": "stub (FaultyReader / FaultyWriter owned by the simulator)",
-               "traffic": "repository generators arb_tx(branch) under a seeded proptest runner, normalised by one round trip; headers and coinbase transactions hand-assembled"})
+               "traffic": "repository generators arb_tx(branch) under a seeded proptest runner, normalised by one round trip; Sprout JoinSplit descriptions spliced into a third of the eligible v2-v4 transactions at the byte level; headers and coinbase transactions hand-assembled"})
     }
     fn assumptions(&self) -> Vec<&'static str> {
         vec![
